@@ -93,10 +93,13 @@ Proof.
 Qed.
 
 (* [hdr][key_len][key][value] *)
-Lemma dec_key_value_rt hdr k v mk : keyok k = true -> wf v = true ->
+Lemma wfd_inv v : wfd v = true -> wf v = true /\ cdepth v <= pv_max_nesting.
+Proof. unfold wfd. rewrite nesting_ok_eq. intros H. apply andb_prop in H as [H1 H2]. split; [exact H1|lia]. Qed.
+
+Lemma dec_key_value_rt hdr k v mk : keyok k = true -> wfd v = true ->
   dec_key_value (hdr ++ u32 (len k) ++ k ++ encode v) (len hdr) mk = WOk (mk k v).
 Proof.
-  intros Hk Hv. apply keyok_inv in Hk as [Hl Hu]. unfold dec_key_value.
+  intros Hk Hv. apply wfd_inv in Hv as [Hv Hdp]. apply keyok_inv in Hk as [Hl Hu]. unfold dec_key_value.
   rewrite (rd_at hdr (u32 (len k)) (k ++ encode v)) by (rewrite ?len_u32; reflexivity).
   rewrite unle_u32_len by exact Hl.
   rewrite !len_app, len_u32.
@@ -105,7 +108,7 @@ Proof.
   rewrite Hu. cbn [negb].
   rewrite (app_assoc (hdr ++ u32 (len k))).
   rewrite from_app by (rewrite !len_app, len_u32; lia).
-  rewrite <- (app_nil_r (encode v)). destruct (roundtrip v [] Hv) as [_ ->]. reflexivity.
+  rewrite <- (app_nil_r (encode v)). destruct (roundtrip v [] Hv Hdp) as [_ ->]. reflexivity.
 Qed.
 
 Lemma rt_remove_node_prop n k : wf_rec (WRemoveNodeProp n k) = true ->
